@@ -40,6 +40,7 @@ type Obligation struct {
 }
 
 type callLabel struct {
+	Callee  string // callee id ("" for dynamic calls)
 	Reach   Term
 	Args    []Val
 	Results []Val
@@ -98,7 +99,9 @@ type Engine struct {
 	curLockOwner *lockOwner
 	lockChecks bool
 	unclassified map[string]bool
+	unwinding    int // > 0 while deferred calls are being run (the remaining deferred unlocks still run after a panic there)
 	idSeen       map[string]int
+	guardedWrites map[string]string // lock-guarded components this function writes (itself or through callee contracts)
 	ownedVals    map[string]*ownedRec // references loaded from `owns` fields (by term) -> protecting lock
 	inQuant   int
 	bodyOrd   map[string]int
@@ -539,6 +542,7 @@ type State struct {
 	base   func(name string, sort Sort) Term
 	defers []*deferEntry
 	held   map[string]Term // lock id -> mode term (0 none, 1 R, 2 W); ghost
+	acquired map[string]Term // mutexes locked on this path by the function under verification (deferred-unlock rule)
 }
 
 func (e *Engine) newState() *State {
@@ -560,6 +564,12 @@ func (s *State) clone() *State {
 		c.held[k] = v
 	}
 	c.defers = append([]*deferEntry{}, s.defers...)
+	if len(s.acquired) > 0 {
+		c.acquired = make(map[string]Term, len(s.acquired))
+		for k, v := range s.acquired {
+			c.acquired[k] = v
+		}
+	}
 	return c
 }
 
@@ -849,6 +859,14 @@ func (e *Engine) mergeStates(conds []Term, sts []*State) *State {
 			}
 		}
 		m.held[n] = pick("m.held", ts)
+	}
+	for _, s := range sts {
+		for k, v := range s.acquired {
+			if m.acquired == nil {
+				m.acquired = map[string]Term{}
+			}
+			m.acquired[k] = v
+		}
 	}
 	// defers: union ordered by push order
 	seen := map[*deferEntry]bool{}
